@@ -13,6 +13,7 @@ import (
 	"runtime"
 	"runtime/debug"
 	"sort"
+	"strconv"
 	"strings"
 	"sync"
 	"time"
@@ -94,6 +95,9 @@ func parseLine(l string) (Case, bool) {
 // budget: the 2 s watchdog, stretched linearly for inputs beyond 64 KiB.
 func budget(n int) time.Duration {
 	d := 2 * time.Second
+	if m, err := strconv.Atoi(os.Getenv("C05X_BUDGET_MULT")); err == nil && m > 0 { // development aid
+		d *= time.Duration(m)
+	}
 	if n > 64<<10 {
 		d = time.Duration(float64(d) * float64(n) / float64(64<<10))
 	}
@@ -238,7 +242,7 @@ func (k *collector) judge(c Case, r runResult) {
 	case "panic":
 		k.add(violation{Prop: "C05", Kind: "panic", Format: c.Format, Sub: r.Panic.Func + "|" + r.Panic.Kind, Detail: "panic: " + r.Panic.Value, Case: c})
 	case "hang":
-		k.add(violation{Prop: "C05", Kind: "hang", Format: c.Format, Sub: c.Family, Detail: fmt.Sprintf("no result within %v", budget(len(c.Input))), Case: c})
+		k.add(violation{Prop: "C05", Kind: "hang", Format: c.Format, Sub: hangSub(c), Detail: fmt.Sprintf("no result within %v", budget(len(c.Input))), Case: c})
 	}
 	for _, l := range r.Life {
 		sub := l
